@@ -65,6 +65,9 @@ pub struct Case {
     /// connect from ::1 (dual-stack listener only) instead of 127.a.b.c
     #[serde(default)]
     pub from_v6: bool,
+    /// the QUIC listener is enabled too (h3 then counts as an enabled protocol for the routing)
+    #[serde(default)]
+    pub quic: bool,
 }
 
 pub fn canary_label(nonce: u32) -> String {
@@ -137,7 +140,7 @@ impl Suite for FrontDoorSuite {
         "tls-front-door"
     }
     fn rule(&self) -> String {
-        "the real Core::listen on a loopback port (127.0.0.1, or [::] so that the IPv4 client appears as ::ffff:a.b.c.d) with generated TLS hosts (1-3 main hosts with alternative SNIs, 0-2 ping / speedtest / reverse-proxy hosts, 6 certificates), enabled protocols, and 0-4 rules built at run time around the client's real source address 127.a.b.c (containing / adjacent / unrelated / malformed CIDRs) and around the 32-byte random of the ClientHello the rustls client actually produced (prefix, prefix off by one bit, longer than the random, masked, malformed); the ClientHello (any SNI over the host-name alphabet, <credentials>.<main host>, or none; ALPN lists of known / unknown / non-UTF-8 / empty entries, optionally padded to 5-15 KiB or fragmented into records of 64-300 bytes) is written in 1-5 pieces from 127.a.b.c or ::1; oracle: reference rule evaluator says deny -> the endpoint closes without sending one byte, allow -> the reference routing decides: an SNI that designates no entry (or no SNI, or no permitted protocol) never completes a handshake, otherwise the handshake completes on exactly these bytes with the leaf certificate of an acceptable entry and the most preferred offered+enabled+permitted protocol as ALPN, and CONNECT _check works on tunnel hosts; at trace level no log record contains the credentials label of the SNI; non-trivial = a rule list whose verdict depends on the random or the source address, or an SNI that is not an exact main host".into()
+        "the real Core::listen on a loopback port (127.0.0.1, or [::] so that the IPv4 client appears as ::ffff:a.b.c.d) with generated TLS hosts (1-3 main hosts with alternative SNIs, 0-2 ping / speedtest / reverse-proxy hosts, 6 certificates), enabled protocols, and 0-4 rules built at run time around the client's real source address 127.a.b.c (containing / adjacent / unrelated / malformed CIDRs) and around the 32-byte random of the ClientHello the rustls client actually produced (prefix, prefix off by one bit, longer than the random, masked, malformed); the ClientHello (any SNI over the host-name alphabet, <credentials>.<main host>, or none; ALPN lists of known / unknown / non-UTF-8 / empty entries, optionally padded to 5-15 KiB or fragmented into records of 64-300 bytes) is written in 1-5 pieces from 127.a.b.c or ::1; oracle: reference rule evaluator says deny -> the endpoint closes without sending one byte, allow -> the reference routing decides: an SNI that designates no entry (or no SNI, or no permitted protocol) never completes a handshake, otherwise the handshake completes on exactly these bytes with the leaf certificate of an acceptable entry and the most preferred offered+enabled+permitted protocol as ALPN (never h3 on this TCP connection, also when the QUIC listener is enabled), and CONNECT _check works on tunnel hosts; at trace level no log record contains the credentials label of the SNI; non-trivial = a rule list whose verdict depends on the random or the source address, or an SNI that is not an exact main host".into()
     }
     fn strategy(&self, _: Tier) -> BoxedStrategy<Case> {
         let recipe = (
@@ -168,9 +171,9 @@ impl Suite for FrontDoorSuite {
             c05::alpn_strategy(),
             prop::collection::vec(any::<u16>(), 0..5),
             0u8..8,
-            (any::<u32>(), prop_oneof![4 => Just(0u8), 1 => 1u8..4, 2 => 18u8..60], prop_oneof![5 => Just(None), 1 => (64u16..300).prop_map(Some)], prop_oneof![3 => Just(false), 1 => Just(true)]),
+            (any::<u32>(), prop_oneof![4 => Just(0u8), 1 => 1u8..4, 2 => 18u8..60], prop_oneof![5 => Just(None), 1 => (64u16..300).prop_map(Some)], prop_oneof![3 => Just(false), 1 => Just(true)], prop_oneof![2 => Just(false), 1 => Just(true)]),
         )
-            .prop_map(|(cfg, p, reverse_proxy, dual_stack, (a, b, c), rules, sni, alpn, cuts, gap_ms, (nonce, pad_alpn, fragment, from_v6))| Case {
+            .prop_map(|(cfg, p, reverse_proxy, dual_stack, (a, b, c), rules, sni, alpn, cuts, gap_ms, (nonce, pad_alpn, fragment, from_v6, quic))| Case {
                 cfg,
                 h1: p[0] || !p[1],
                 h2: p[1],
@@ -186,6 +189,7 @@ impl Suite for FrontDoorSuite {
                 pad_alpn,
                 fragment,
                 from_v6,
+                quic,
             })
             .boxed()
     }
@@ -227,19 +231,22 @@ impl Suite for FrontDoorSuite {
         if c.v6() {
             v.push("ipv6-client");
         }
+        if c.quic && c.alpn.iter().any(|a| a == b"h3") {
+            v.push("h3-offered-on-tcp-with-quic-enabled");
+        }
         if c.rules.iter().any(|r| r.pat_how != 0 || r.cidr_how != 0) || !c.sni_text().is_some_and(|n| c.cfg.main.iter().any(|(m, _, _)| c05::name(*m) == n)) {
             v.push("nontrivial");
         }
         v
     }
     fn required_classes(&self) -> Vec<&'static str> {
-        vec!["nontrivial", "with-rules", "rule-on-client-random", "dual-stack-listener", "sni-credentials", "no-sni", "exact-main-host", "other-sni", "segmented-hello", "hello-larger-than-4-KiB", "hello-over-several-records", "ipv6-client"]
+        vec!["nontrivial", "with-rules", "rule-on-client-random", "dual-stack-listener", "sni-credentials", "no-sni", "exact-main-host", "other-sni", "segmented-hello", "hello-larger-than-4-KiB", "hello-over-several-records", "ipv6-client", "h3-offered-on-tcp-with-quic-enabled"]
     }
     fn check(&self, c: &Case) -> Verdict {
         let c = c.clone();
         let src = Ipv4Addr::new(127, c.src[0], c.src[1], c.src[2]);
         let peer = if c.v6() { IpAddr::V6(std::net::Ipv6Addr::LOCALHOST) } else { IpAddr::V4(src) };
-        let mut spec = CoreSpec { h1: c.h1, h2: c.h2, ..CoreSpec::default() };
+        let mut spec = CoreSpec { h1: c.h1, h2: c.h2, quic: c.quic, ..CoreSpec::default() };
         c05::apply_cfg(&mut spec, &c.cfg);
         if c.reverse_proxy {
             spec.reverse_proxy = Some(("127.0.0.1:9".parse().unwrap(), "/api".into()));
@@ -479,10 +486,20 @@ fn judge(c: &Case, peer: IpAddr, random: &[u8], rules: &[RuleSpec], front: &Fron
         None => vec![],
     };
     let acceptable: Vec<&c05::Designation> = if des.iter().any(|d| d.exact) { des.iter().filter(|d| d.exact).collect() } else { des.iter().collect() };
+    // on a TCP connection HTTP/3 is not a candidate
     let served = |d: &&c05::Designation| c05::expected_protocol_flags(c.h1, c.h2, false, d.channel, &offered);
+    // ... but when the routing would prefer h3 (QUIC enabled, h3 offered), refusing the TCP
+    // connection instead of falling back to the next protocol is accepted as well
+    let h3_preferred = c.quic && acceptable.iter().any(|d| c05::expected_protocol_flags(c.h1, c.h2, true, d.channel, &offered) == Ok(Proto::Http3));
     let must_refuse = acceptable.is_empty() || acceptable.iter().all(|d| served(d).is_err());
     match front {
         Front::Served { leaf, alpn, check_status } => {
+            ensure!(
+                alpn.as_deref() != Some(b"h3"),
+                "frontdoor:h3-selected-on-tcp",
+                "{}: the TLS handshake on a TCP connection completed with ALPN h3",
+                what
+            );
             ensure!(
                 !acceptable.is_empty(),
                 "frontdoor:undesignated-sni-served",
@@ -524,6 +541,9 @@ fn judge(c: &Case, peer: IpAddr, random: &[u8], rules: &[RuleSpec], front: &Fron
             // an empty protocol name makes the ALPN extension itself malformed (RFC 7301): a TLS
             // stack may reject such a ClientHello outright
             if c.alpn.iter().any(|a| a.is_empty()) {
+                return Ok(());
+            }
+            if h3_preferred {
                 return Ok(());
             }
             ensure!(
